@@ -72,6 +72,11 @@ CLASSES = {
     'Nasa9': (New('pmutt.empirical.nasa:Nasa9', name=Const('H2O'), phase=Const('G'), elements=Const({'H': 2, 'O': 1}),
                   nasas=ListOf([New('pmutt.empirical.nasa:SingleNasa9', T_low=Real(100., 300.), T_high=Real(900., 1000.), a=RealVec(9, -5., 5.))])),
               ['name', 'phase', 'elements', 'nasas', 'n_sites']),
+    'Nasa9[2 intervals, any order]': (
+        New('pmutt.empirical.nasa:Nasa9', name=Const('H2O'), phase=Const('G'), elements=Const({'H': 2, 'O': 1}),
+            nasas=ListOf([New('pmutt.empirical.nasa:SingleNasa9', T_low=Real(100., 1000.), T_high=Real(1000., 6000.), a=RealVec(9, -5., 5.)),
+                          New('pmutt.empirical.nasa:SingleNasa9', T_low=Real(100., 1000.), T_high=Real(1000., 6000.), a=RealVec(9, -5., 5.))])),
+        ['nasas']),
     'Shomate': (New('pmutt.empirical.shomate:Shomate', name=Const('H2O'), T_low=Real(100., 300.), T_high=Real(2000., 6000.),
                     a=RealVec(8, -5., 5.), units=Const('J/mol/K'), phase=Const('G'), elements=Const({'H': 2, 'O': 1}), n_sites=Const(2)),
                 ['name', 'phase', 'elements', 'T_low', 'T_high', 'a', 'units', 'n_sites']),
